@@ -91,11 +91,26 @@ Print Assumptions C20_only_matching.
    {Result:true} and a hello matching this request's id; otherwise it is closed. *)
 Theorem C20_only_matching_proxied : forall id b rep hello,
   (forall p, o_res (proxy_attempt id b rep hello) = Returned p ->
-     p = b /\ rep = PrOk /\ hello_matches id hello = true) /\
+     p = b /\ (exists echo, rep = PrOk echo) /\ hello_matches id hello = true) /\
   (forall e, o_res (proxy_attempt id b rep hello) = Failed e ->
      o_closed (proxy_attempt id b rep hello) = [b]).
 Proof. exact proxy_only_matching_full. Qed.
 Print Assumptions C20_only_matching_proxied.
+
+(* The id the proxied hello must carry is the requester's own: attributes of the
+   broker's success reply (e.g. a ClaimId "echo") never change the verdict, and a
+   hello that merely repeats a different id found in the reply is refused. *)
+Theorem C20_proxied_reply_extras_ignored : forall id b e1 e2 hello,
+  proxy_attempt id b (PrOk e1) hello = proxy_attempt id b (PrOk e2) hello.
+Proof. exact proxy_reply_extras_ignored. Qed.
+Print Assumptions C20_proxied_reply_extras_ignored.
+
+Theorem C20_proxied_echoed_id_rejected : forall id b echoed cmd,
+  echoed <> id ->
+  proxy_attempt id b (PrOk (Some echoed)) (GHello cmd (Some echoed)) =
+  mkOut (Failed (if Z.eqb cmd ccb_reverse_connect then AeProxyMismatch else AeProxyHello)) [b].
+Proof. exact proxy_echoed_id_rejected. Qed.
+Print Assumptions C20_proxied_echoed_id_rejected.
 
 (* ---- C20_broker_failure ---------------------------------------------------- *)
 
